@@ -141,6 +141,10 @@ func (e *End) Write(b []byte) (int, error) {
 		// like a TCP peer that went away: the octets are lost
 		return 0, io.ErrClosedPipe
 	}
+	if !e.wdl.IsZero() && !time.Now().Before(e.wdl) {
+		// (a write never blocks here; an expired deadline fails it as on a socket)
+		return 0, os.ErrDeadlineExceeded
+	}
 	if len(b) == 0 {
 		return 0, nil
 	}
